@@ -137,6 +137,29 @@ def plan(tier, seed):
             cfg["loads_desc"]["form"] = "int"  # whole watts as Python ints (JSON integers)
         cfg["_class"] = "limit-boundary"
         cfgs.append(cfg)
+    # whole-number inputs given as ints (what a hand-written JSON input looks like): lengths, spacings, heights, limits, flow
+    for k in range({"quick": 5, "thorough": 20}[tier]):
+        method = ["NEARSQUARE", "RECTANGLE", "BIRECTANGLE", "BIZONEDRECTANGLE", "RECTANGLE"][k % 5]
+        cfg = make_cfg(g, method, GP.PIPES[k % 4], ["BOREHOLE", "SYSTEM"][k % 2], ["interior", "small", "large", "interior", "tiny"][k % 5], k % 2 == 0, 49)
+        geo = cfg["geometric_constraints"]
+        for key in ("length", "width", "b", "b_min", "b_max", "b_max_x", "b_max_y", "max_height", "min_height"):
+            if key in geo:
+                geo[key] = int(round(geo[key] + (0.5 if key.startswith("b_max") else 0.0)))
+        if "b_min" in geo:
+            for key in ("b_max", "b_max_x", "b_max_y"):
+                if key in geo:
+                    geo[key] = max(geo[key], geo["b_min"] + 2)
+        geo["max_height"] = max(geo["max_height"], geo["min_height"] + 20)
+        cfg["design"]["max_eft"] = int(round(cfg["design"]["max_eft"])) + 1
+        cfg["design"]["min_eft"] = int(round(cfg["design"]["min_eft"])) - 1
+        if cfg["design"]["flow_type"] == "SYSTEM":
+            cfg["design"]["flow_rate"] = int(max(1, round(cfg["design"]["flow_rate"])))
+        cfg["soil"]["undisturbed_temp"] = int(round(cfg["soil"]["undisturbed_temp"]))
+        cfg["grout"]["rho_cp"] = int(cfg["grout"]["rho_cp"])
+        cfg["soil"]["rho_cp"] = int(cfg["soil"]["rho_cp"])
+        cfg["loads_desc"]["scale"] = scale_loads_for(cfg, cfg["_class"], g)
+        cfg["_class"] = "int-inputs"
+        cfgs.append(cfg)
     return cfgs
 
 
